@@ -328,6 +328,8 @@ Definition c13_step_reasons (o : op) (r : res value) (before after : list (value
     + (if forallb (fun kd => py_eq (fst kd) (fst kd)) before then 0 else 2)
     + (if existsb (fun kd => is_null (fst kd)) after
           && negb (existsb (fun kd => is_null (fst kd)) before) then 4 else 0)
+    + (if match o with OUpdate _ u _ true => c13_id_subfield u | _ => false end then 32 else 0)
+    + (if match o with OUpdate f _ _ true => c13_null_id_filter f | _ => false end then 64 else 0)
   else 0.
 
 Fixpoint c13_go (ops : list op) (os : list obs) (before : list (value * value)) (info : value)
@@ -341,10 +343,17 @@ Fixpoint c13_go (ops : list op) (os : list obs) (before : list (value * value)) 
 Lemma c13_reasons_go ops os : c13_reasons ops os = c13_go ops os [] (VDoc []).
 Proof. reflexivity. Qed.
 
-Lemma reasons_zero (a b c : bool) :
-  (if a then 1 else 0) + (if b then 0 else 2) + (if c then 4 else 0) = 0 ->
-  a = false /\ b = true /\ c = false.
-Proof. destruct a, b, c; intros; repeat split; lia. Qed.
+Lemma reasons_zero (a b c d e : bool) :
+  (if a then 1 else 0) + (if b then 0 else 2) + (if c then 4 else 0)
+  + (if d then 32 else 0) + (if e then 64 else 0) = 0 ->
+  a = false /\ b = true /\ c = false /\ d = false /\ e = false.
+Proof. destruct a, b, c, d, e; intros; repeat split; lia. Qed.
+
+Lemma drop_bits (a b c d e : bool) :
+  (if a then 1 else 0) + (if b then 0 else 2) + (if c then 4 else 0)
+  + (if d then 32 else 0) + (if e then 64 else 0) = 0 ->
+  (if a then 1 else 0) + (if b then 0 else 2) + (if c then 4 else 0) + 0 + 0 = 0.
+Proof. destruct a, b, c, d, e; lia. Qed.
 
 Definition info_of (c : coll) : value :=
   match index_information c with (_, Ok v) => v | _ => VNull end.
@@ -414,8 +423,8 @@ Proof.
                            (snd (update pre5 c f u multi true))
                            (docs (fst (update pre5 c f u multi true))) = true).
   { intros f u multi Hr. unfold c13_step_reasons in Hr.
-    apply reasons_zero in Hr.
-    destruct Hr as (Httl & Hself & Hnull).
+    apply (reasons_zero _ _ _ false false) in Hr.
+    destruct Hr as (Httl & Hself & Hnull & _ & _).
     destruct (update pre5 c f u multi true) as [c' [v|e]] eqn:Hu; [|reflexivity].
     cbn [fst snd] in *.
     apply upsert_pred; auto.
@@ -427,7 +436,7 @@ Proof.
     cbn [c13w_step step] in *. unfold update_op in *.
     destruct u; try reflexivity.
     destruct (first_key_dollar (VDoc fs)) as [[|]|]; try reflexivity.
-    apply Hup. exact H.
+    apply Hup. exact (drop_bits _ _ _ _ _ H).
   - (* replace *)
     destruct upsert; [|reflexivity].
     cbn [c13w_step step] in *. unfold replace_op in *.
